@@ -98,9 +98,23 @@ theorem ul_adjust_refused (u : PsipURI) (np : PField) (h : ulLen u > np.len) :
   simp only
   split
   · rfl
-  · have : (List.foldl (fun a f => ulenStep a u.scheme.offs f) u.scheme.len
-        [u.user, u.pass, u.host, u.port, u.params, u.headers]) > np.len := h
-    rw [if_pos this]
+  · split
+    · rfl
+    · have : (List.foldl (fun a f => ulenStep a u.scheme.offs f) u.scheme.len
+          [u.user, u.pass, u.host, u.port, u.params, u.headers]) > np.len := h
+      rw [if_pos this]
+
+/-- a span that ends past the 16-bit range (its end offset wraps) is refused, nothing is changed, no panic
+    (library repair 1a8b02b; before it the code panicked after rewriting the offsets, or wrapped them) -/
+theorem ul_adjust_wrap_refused (u : PsipURI) (np : PField) (ho : np.offs < 65536) (hl : np.len < 65536)
+    (hw : 65536 ≤ np.offs + np.len) : u.adjustOffs np = (false, u, false) := by
+  unfold PsipURI.adjustOffs
+  simp only
+  have : trunc16 (np.offs + np.len) < np.offs := by
+    unfold trunc16
+    have : (np.offs + np.len) % 65536 = np.offs + np.len - 65536 := by omega
+    omega
+  rw [if_pos this]
 
 /-- a span that holds the URI: accepted, no panic, the result is the URI moved by `np.offs - start` -/
 theorem ul_adjust_moves (u : PsipURI) (np : PField) (L : Nat) (hwf : ULWF u L) (hfit : L ≤ np.len)
@@ -121,7 +135,10 @@ theorem ul_adjust_moves (u : PsipURI) (np : PField) (L : Nat) (hwf : ULWF u L) (
   have hs2 : ¬ (List.foldl (fun a f => ulenStep a u.scheme.offs f) u.scheme.len
       [u.user, u.pass, u.host, u.port, u.params, u.headers] > np.len) := by
     have := hwf.ulen; unfold ulLen ulComps at this; omega
-  simp only [PsipURI.adjustOffs, if_neg hs1, if_neg hs2]
+  have hs0 : ¬ (trunc16 (np.offs + np.len) < np.offs) := by
+    have : trunc16 (np.offs + np.len) = np.offs + np.len := Nat.mod_eq_of_lt hlim
+    omega
+  simp only [PsipURI.adjustOffs, if_neg hs0, if_neg hs1, if_neg hs2]
   have e1 := ul_adjField_eq u.user u.scheme.offs np.offs np.offs L hu hl
   have e2 := ul_adjField_eq u.pass u.scheme.offs np.offs (adjField u.user u.scheme.offs np.offs np.offs).2 L hp hl
   have e3 := ul_adjField_eq u.host u.scheme.offs np.offs
